@@ -4,7 +4,7 @@ Helper lemmas for C13: the line scanner on rendered lines, the parser loop on bl
 (ignored lines, header, body), and the line cutter of the layout spec.
 -/
 namespace PolyVerif.Fasta
-open PolyVerif PolyVerif.Spec
+open PolyVerif PolyVerif.Spec.FastaSpec
 
 /-! ### scanner -/
 
